@@ -29,3 +29,11 @@ INSERT INTO o3 VALUES (1, 1)
 CREATE INDEX o3_a ON o3 (a)
 SELECT a, b FROM o3 ORDER BY a
 SELECT a, b FROM o3 ORDER BY a + 0
+-- (fix "ORDER BY <alias> was served from an index on a column of the same name": BEFORE, the next query returned the alias values -1, -3, -5 - the order of
+--  COLUMN k through index ak_k; AFTER: -5, -3, -1, as without the index)
+CREATE TABLE ak (id INTEGER, k INTEGER)
+INSERT INTO ak VALUES (1,5)
+INSERT INTO ak VALUES (2,1)
+INSERT INTO ak VALUES (4,3)
+CREATE INDEX ak_k ON ak (k)
+SELECT id, 0 - k AS k FROM ak ORDER BY k
